@@ -68,6 +68,11 @@ Emit == PrintT(ToJson(Case))
 
 Theorems ==
   /\ StagingTheorems(L)
+  \* the per-field demand is the mode table entry of the leaf's own field (what the replayer looks up)
+  /\ WithModes => \A i \in FileIdx(L) : \A m1, m2 \in Modes :
+        LET fm == [f \in 1..Len(fields) |-> IF f = 1 THEN m1 ELSE m2]
+            fc == [f \in 1..Len(fields) |-> "any"] IN
+        LeafDemand(L, fm, fc, i) = ModeTable[fm[L[i].f]]["any"][Info(L[i].o).kind]
   /\ \A f \in 1..Len(fields) : DepthOf(fields[f]) <= 2 /\ LeavesOf(ShapeOf(fields[f])) # <<>>
   /\ Len(L) = NLeaves
   /\ \A m \in Modes : \A c \in Collations : \A k \in {"file", "dir", "pair"} :
